@@ -180,6 +180,16 @@ def balance(m, ground, real, label, viol, stat):
         return None, 0.0
     frac = sphere_fraction(m, ground)
     P_rad = P_src * frac
+    # the gain that was integrated is normalised by the delivered power: a requested power level / distance for the
+    # V/m table must leave it alone (coarse grid, same object)
+    zg, ag = (5., 20., 5), (0., 72., 5)
+    _, _, g0 = obs.far(m, zg, ag)
+    _, _, g1 = obs.far(m, zg, ag, pwr=100., dist=50.)
+    g0, g1 = np.array(g0)[..., 2], np.array(g1)[..., 2]
+    msk = g0 > g0.max() - 40
+    if np.abs(g0 - g1)[msk].max() > 1e-6:
+        viol.append(('BALANCE-power-level', '%s: integrated gain changes by %.3g dB when a power level of 100 W is requested for the V/m table'
+                     % (label, np.abs(g0 - g1)[msk].max())))
     res = (P_src - P_load - P_rad) / S
     if real:
         if res < -0.015:
